@@ -753,6 +753,16 @@ fn blocks_message(blocks: impl IntoIterator<Item = (Cid, Vec<u8>)>) -> Option<(B
     (count > 0).then(|| (message.encode_to_vec().into(), count))
 }
 
+/// Upper bound for the wire overhead of one block in a Bitswap message: the protobuf framing of
+/// the block, its prefix (four varints) and the framing of its data.
+const MAX_BLOCK_OVERHEAD: usize = 64;
+
+/// Maximum number of blocks in one batch. Together with `config::MAX_BATCH_SIZE` this guarantees
+/// that the encoded message, including the per-block overhead, stays below
+/// `config::MAX_MESSAGE_SIZE` even if the batch consists of very small blocks.
+const MAX_BLOCKS_PER_BATCH: usize =
+    (config::MAX_MESSAGE_SIZE - config::MAX_BATCH_SIZE) / MAX_BLOCK_OVERHEAD - 1;
+
 /// Extract a batch of blocks of no more than `max_size` from `blocks`.
 /// Returns `None` if no more blocks are left.
 fn extract_next_batch<'a>(
@@ -783,7 +793,7 @@ fn extract_next_batch<'a>(
 
     for b in blocks.iter() {
         let next_block_size = b.1.len();
-        if total_size + next_block_size > max_batch_size {
+        if total_size + next_block_size > max_batch_size || block_count == MAX_BLOCKS_PER_BATCH {
             break;
         }
         total_size += next_block_size;
